@@ -36,6 +36,10 @@ type c19Cfg struct {
 	// disjoint windows of one shared destination
 	Mode     string `json:"mode,omitempty"`
 	Src, Dst string `json:",omitempty"`
+	// FakeProcs > 0: the library is told GOMAXPROCS = FakeProcs and NumCPU = 16 (the overlay redirects
+	// those two calls to the shim; the real GOMAXPROCS is 1 under the explorer), so that code which splits
+	// work by the number of processors does split, and its goroutines become threads of the explorer
+	FakeProcs int `json:"fake_procs,omitempty"`
 }
 
 type c19Case struct {
@@ -518,7 +522,13 @@ func c19Explore(c *core.Ctx, cfg c19Cfg, race bool, only []int, onFail func(cs c
 	defer runtime.GOMAXPROCS(old)
 	va.SetHook(func(op string) { schedx.Point(op) }) // atomic operations of the library are scheduling points
 	vs.SetGlobal(poolctl.Sched{})                    // pools (the recycled shared buffer) are deterministic
-	defer func() { va.SetHook(nil); vs.SetGlobal(nil) }()
+	// what the library is told about the machine (the real GOMAXPROCS is 1 under the explorer)
+	if cfg.FakeProcs > 0 {
+		vs.SetFakeProcs(cfg.FakeProcs, 16)
+	} else {
+		vs.SetFakeProcs(4, 16)
+	}
+	defer func() { va.SetHook(nil); vs.SetGlobal(nil); vs.SetFakeProcs(0, 0) }()
 	start := time.Now()
 	baseGoroutines := runtime.NumGoroutine()
 	var h schedx.Harness = &c19H{cfg: cfg, t: typeByName(cfg.T)}
@@ -617,6 +627,14 @@ func init() {
 			for _, sh := range []string{`{"C":2,"Frames":6}`, `{"C":2,"Frames":600}`, `{"C":9,"Frames":4}`} {
 				jobs = append(jobs, core.WorkerJob{Binary: "mc-race", ID: "C19", Arg: "allinst:" + sh, Env: []string{"VERIF_TIER=" + c.Tier, "GORACE=halt_on_error=0 exitcode=0"}})
 			}
+			// long buffers (70000 samples), the library being told that there are 2 (of 16) processors to use
+			for _, bin := range []string{"mc-shim", "mc-race"} {
+				arg := `allinst:{"C":2,"Frames":35000,"FakeProcs":2,"OnePerFn":true}`
+				if bin == "mc-race" && c.Quick() {
+					arg = `allinst:{"C":2,"Frames":35000,"FakeProcs":2,"OnePerFn":true,"SkipSame":true}` // the race monitor is ten times slower
+				}
+				jobs = append(jobs, core.WorkerJob{Binary: bin, ID: "C19", Arg: arg, Env: []string{"VERIF_TIER=" + c.Tier, "GORACE=halt_on_error=0 exitcode=0", fmt.Sprintf("VERIF_BUDGET_S=%d", int(time.Until(c.Deadline).Seconds()))}})
+			}
 			var execs, trans, states, raceExecs int64
 			var report []map[string]any
 			var stderrAll string
@@ -700,7 +718,10 @@ func init() {
 			}
 			if len(arg) > 8 && arg[:8] == "allinst:" {
 				// every one of the 169 instantiations, readers and writers, in this one (race) process
-				var shape struct{ C, Frames int }
+				var shape struct {
+					C, Frames, FakeProcs int
+					OnePerFn, SkipSame   bool
+				}
 				json.Unmarshal([]byte(arg[8:]), &shape)
 				if core.RaceEnabled {
 					if err := raceCanary(); err != nil {
@@ -710,9 +731,19 @@ func init() {
 						return 0
 					}
 				}
+				seenFn := map[string]bool{}
 				for _, sd := range instOrder() {
+					if shape.OnePerFn { // long buffers: one instantiation of each conversion function and the same-type ones
+						fn := dyn.ConvName(sd[0], sd[1])
+						if sd[0] >= dyn.NB || sd[1] >= dyn.NB || (sd[0] != sd[1] && seenFn[fn]) || (sd[0] == sd[1] && shape.SkipSame) {
+							continue
+						}
+						if sd[0] != sd[1] {
+							seenFn[fn] = true
+						}
+					}
 					for _, mode := range []string{"readers", "writers"} {
-						cfg := c19Cfg{T: tn(sd[0]), C: shape.C, R: 2, Menu: 0, Bound: 1, Frames: shape.Frames, Mode: mode, Src: tn(sd[0]), Dst: tn(sd[1])}
+						cfg := c19Cfg{T: tn(sd[0]), C: shape.C, R: 2, Menu: 0, Bound: 1, Frames: shape.Frames, Mode: mode, Src: tn(sd[0]), Dst: tn(sd[1]), FakeProcs: shape.FakeProcs}
 						e, _ := c19Explore(c, cfg, core.RaceEnabled, nil, func(cs c19Case, fs []F) {
 							if len(res.Violations) < 6 {
 								raw, _ := json.Marshal(cs)
@@ -725,7 +756,11 @@ func init() {
 						res.Transitions += e.Transitions
 					}
 				}
-				res.Configs = []map[string]any{{"config": fmt.Sprintf("all 169 instantiations x {two readers of one source, two writers into disjoint windows}, %d channels, %d frames", shape.C, shape.Frames), "race_monitor": core.RaceEnabled, "executions": res.Executions, "completed": true}}
+				which := "all 169 instantiations (and those with a named type on one side)"
+				if shape.OnePerFn {
+					which = fmt.Sprintf("one instantiation of each conversion function and the 13 same-type ones, the library being told GOMAXPROCS=%d", shape.FakeProcs)
+				}
+				res.Configs = []map[string]any{{"config": fmt.Sprintf("%s x {two readers of one source, two writers into disjoint windows}, %d channels, %d frames", which, shape.C, shape.Frames), "race_monitor": core.RaceEnabled, "executions": res.Executions, "completed": true}}
 				core.EmitWorkerResult(res)
 				return 0
 			}
